@@ -18,6 +18,7 @@ struct St {
     ObjectCache<int, Obj*>* oc = nullptr; mvprog::Prog prog;
     int ctor_running[4] = {0}, ctor_calls[4] = {0}, dtor_calls[4] = {0};
     Obj* live[4] = {nullptr};            // object most recently constructed for the key and not destroyed
+    int rec_in[4] = {0}, rec_done[4] = {0};   // recycling releases in flight / completed per key (two recyclers of one key: who gets the object is not specified)
     int borrowed[4] = {0};               // references the harness threads hold per key
     std::string log;
     char arena[32][64]; int narena = 0;  // objects live here and are poisoned on destruction (never reused)
@@ -52,9 +53,10 @@ static void body(mvprog::PT& p) {
         char op = p.ops[i];
         if (op == 'y') { thread_yield(); continue; }
         if (op == 'p') { int npad = pmc_choose(3, PMC_PROG, 0, "pad yields"); for (int kk = 0; kk < npad; kk++) thread_yield(); continue; }   // every arrival order on one vCPU
+        if (op == 'q') { if (pmc_choose(2, PMC_PROG, 0, "pad yield")) thread_yield(); continue; }
         if (op == 't') { thread_usleep(150); continue; }
         if (op == 'e') { G->oc->expire(); continue; }
-        if (op == 'i') { int k = p.ops[++i] - '0'; auto& q = G->prog.pts[k]; G->log += 'i'; G->log += q.done ? 'd' : 'r'; if (q.th && !q.done) thread_interrupt(q.th, EINTR); continue; }
+        if (op == 'i') { int k = p.ops[++i] - '0'; if (k >= (int)G->prog.pts.size()) continue; auto& q = G->prog.pts[k]; G->log += 'i'; G->log += q.done ? 'd' : 'r'; if (q.th && !q.done) thread_interrupt(q.th, EINTR); continue; }
         int k = p.ops[++i] - '0';
         if (op == 'a' || op == 's' || op == 'f' || op == 'F') {
             int mode = op == 'a' ? 0 : op == 's' ? 1 : op == 'f' ? 2 : 3;
@@ -76,10 +78,14 @@ static void body(mvprog::PT& p) {
             G->borrowed[k]--; Obj* o = mine[k]; mine[k] = nullptr;
             if (op == 'r') G->oc->release(k);
             else {
+                int done0 = G->rec_done[k]; G->rec_in[k]++;
                 Obj* back = G->oc->release(k, true, op == 'R');
+                bool contested = G->rec_in[k] > 1 || G->rec_done[k] != done0;
+                G->rec_in[k]--; G->rec_done[k]++;
                 // a recycling release returns only after every other holder released
                 if (G->borrowed[k] > 0 && G->live[k] == nullptr) pmc_violation("recycle-returned-early", "release(recycle) of key %d returned while %d other reference(s) are still held", k, G->borrowed[k]);
-                if (op == 'M') { if (back != o) pmc_violation("recycle-wrong-object", "release(recycle, !destroy) returned %p, expected %p", (void*)back, (void*)o); if (G->live[k] == o) G->live[k] = nullptr; delete back; }
+                if (op == 'M' && contested && !back) { /* another recycler of the same key took it */ }
+                else if (op == 'M') { if (back != o) pmc_violation("recycle-wrong-object", "release(recycle, !destroy) returned %p, expected %p", (void*)back, (void*)o); if (G->live[k] == o) G->live[k] = nullptr; delete back; }
             }
             G->log += char('a' + me); G->log += op; p.result += "r";
         }
@@ -92,7 +98,8 @@ void pmc_run(const char* config) {
     St st; G = &st;
     char prog[128]; char extra[24] = "";
     if (sscanf(config, "%127[^:]:%23s", prog, extra) < 1) pmc_broken("bad config");
-    st.prog.parse(prog);
+    pmc_window(1);     // generated programs are explorer choices: each token is a whole acquire..release episode
+    if (st.prog.parse_or_generate(prog, {"a0qr0", "s0qr0", "f0r0", "F0r0", "a0qR0", "a0qM0", "a0ter0", "e", "a1qr1", "i0", "i1"})) st.log = st.prog.generated + " ";
     pmc_window(0);
     mv_init(); mvp::use_fast_stacks(true);
     mv_on_deadlock = on_deadlock;
@@ -128,6 +135,10 @@ static const PmcConfig CFG[] = {
     {"pa0pR0,pa0ppr0,ppi0", 3, {0,0}, {0,0}, {0,0}, {0,0}, "one vCPU: a stray interrupt lands on the recycling releaser while it waits for the other holder"},
     {"a0R0|a0yr0|yi0",     3, {1,2}, {0,0}, {0,0}, {0,0}, "... across vCPUs"},
     {"pa0pM0,pa0ppr0,ppi0", 2, {0,0}, {0,0}, {0,0}, {0,0}, ""},
+    {"gen3x1",             3, {0,0}, {0,0}, {0,0}, {0,0}, "generated: every 3-thread program of one episode each (acquire ok/slow/fail/slow-fail + release / recycle / hand over / hold past lifespan + expire, expire, other key, interrupt), every arrival order"},
+    {"gen2x2",             3, {0,0}, {0,0}, {0,0}, {0,0}, "generated: 2 threads x up to 2 episodes"},
+    {"gen4x1",             2, {0,0}, {0,0}, {0,0}, {0,0}, ""},
+    {"gen3x2",             2, {0,0}, {0,0}, {0,0}, {0,0}, ""},
     {"a0r0,a0R0|a0r0te",   2, {1,2}, {0,0}, {0,0}, {0,0}, ""},
     {"a0r0|a0r0|a0R0",     2, {1,2}, {0,0}, {0,0}, {0,0}, "three vCPUs"},
     {"a0r0,s0r0,a0R0",     3, {0,0}, {0,0}, {0,0}, {0,0}, "one vCPU"},
